@@ -1192,7 +1192,8 @@ class BaseGaussianState(BaseState):
 
             # sin(phi) ~ -V_xp and cos(phi) ~ V_pp - V_xx: arctan2 keeps the quadrant of phi
             # (arcsin alone lost the sign of cos(phi), i.e. returned pi - phi for |phi| > pi/2)
-            if np.allclose(cov, np.identity(2), atol=1e-12, rtol=0):
+            # an isotropic mode (vacuum, thermal, one arm of a two-mode squeezed state) has no squeezing angle
+            if np.hypot(2 * cov[0, 1], cov[1, 1] - cov[0, 0]) <= 1e-12 * tr:
                 phi = 0
             else:
                 phi = np.arctan2(-2 * cov[0, 1], cov[1, 1] - cov[0, 0])
